@@ -89,7 +89,7 @@ def api_cases(tier, rng):
             for kf in (0, 7, 8, 9):
                 lines.append("|".join(["void"] + ["i64"] * ki + ["f64"] * kf + [s, "i32", "f32", s]))
                 lines.append("|".join(["{i64,i64,i64}"] + ["i64"] * ki + ["f64"] * kf + [s, "i32", "f32", s]))
-    nrand = 3000 if tier == "quick" else 60000
+    nrand = 2000 if tier == "quick" else 60000
     for _ in range(nrand):
         lines.append(sig_line(rand_sig(rng)))
     return lines, exhaustive_n
@@ -207,7 +207,7 @@ def e2e_stream(fl, E, capy, tier):
     if tier == "quick":
         # a seeded third of the directed corpus per run keeps the quick tier short
         progs = [p for k, p in enumerate(progs) if (k + fl.seed) % 3 == 0]
-    nrand = 45 if tier == "quick" else 900
+    nrand = 30 if tier == "quick" else 900
     for _ in range(nrand):
         progs.append(([E.gen_signature(rng) for _ in range(per)], rng.next()))
     n_page = 10 if tier == "quick" else 120
@@ -235,10 +235,12 @@ def e2e_stream(fl, E, capy, tier):
             bad = [(j, r) for j, r in zip(jobs, res) if r["status"] != "ok"]
             v.coverage["e2e_%s_program_runs_not_ok" % name] = len(bad)
 
+            full_shrink = set(id(jr[0]) for jr in bad[:2])   # greedy minimisation only for the first two
+
             def sh(jr):
                 (sigs, seed, cf), r = jr
                 try:
-                    return E.shrink(capy, sigs, seed, cf, root, opts=opts)
+                    return E.shrink(capy, sigs, seed, cf, root, minimise=id(jr[0]) in full_shrink, opts=opts)
                 except Exception as e:      # pragma: no cover
                     return [{"sig": None, "orig_sig": sigs, "direction": "?", "status": r["status"],
                              "detail": "shrink failed: %r" % (e,), "diff": r.get("diff"), "opts": dict(opts or {})}]
